@@ -1,9 +1,140 @@
 (** C09 -- path tree is a prefix-free map with consistent wildcard query/delete.
     This file holds only the property theorems, each closed by [exact] of a
-    lemma proved elsewhere, with [Print Assumptions] beneath. *)
-From Gnmi Require Import Base.Prelude CTree.CTreeModel.
+    lemma proved elsewhere (CTree/CTreeTheorems.v, CTree/CTreeProofs.v), with
+    [Print Assumptions] beneath.
 
+    Vocabulary: [lookup t p] is the value stored at exactly path [p] (the
+    abstraction of a tree to a partial map); [run ms] is the tree reached from
+    the empty tree by the history [ms] of Add / Delete(Conditional) / WalkDeleted
+    operations; [wf_tree] (distinct child names, no empty branch) holds of every
+    reachable tree ([C09_reachable_wf]), so every statement below that assumes
+    it is a statement about all histories. *)
+From Gnmi Require Import Base.Prelude CTree.CTreeModel CTree.CTreeProofs CTree.CTreeTheorems.
+From Coq Require Import Sorting.Sorted.
+
+(** every reachable tree is well formed *)
+Theorem C09_reachable_wf :
+  forall (V : Type) (ms : list (@mut V)), wf_tree (run ms).
+Proof. exact @reachable_wf. Qed.
+Print Assumptions C09_reachable_wf.
+
+(** no stored path is a prefix of another, in every reachable tree *)
+Theorem C09_prefix_free :
+  forall (V : Type) (ms : list (@mut V)) p s v w,
+    lookup (run ms) p = Some v -> lookup (run ms) (p ++ s) = Some w -> s = [].
+Proof. exact @reachable_prefix_free. Qed.
+Print Assumptions C09_prefix_free.
+
+(** an add either stores the value (exactly that binding changes) or fails
+    leaving the tree unchanged; it fails exactly when the path conflicts with a
+    stored path.  A delete removes exactly the selected bindings. *)
+Theorem C09_step_refines_map :
+  forall (V : Type) (t : tree V) (m : @mut V),
+    wf_tree t ->
+    match m with
+    | MAdd p v =>
+        (conflict_free t p /\
+         forall q, lookup (mut_step t m) q = if path_eqb q p then Some v else lookup t q)
+        \/ (~ conflict_free t p /\ add t p v = None /\ mut_step t m = t)
+    | MDel q c =>
+        forall s, lookup (mut_step t m) s = sel q c (lookup t s) s
+    end.
+Proof. exact @mut_step_refines. Qed.
+Print Assumptions C09_step_refines_map.
+
+(** Query reports exactly the stored leaves that match, each once *)
+Theorem C09_query_exact :
+  forall (V : Type) (t : tree V) q p v,
+    wf_tree t -> (In (p, v) (query t q) <-> lookup t p = Some v /\ qmatch q p = true).
+Proof. exact @query_exact. Qed.
+Print Assumptions C09_query_exact.
+
+Theorem C09_query_once :
+  forall (V : Type) (t : tree V) q, wf_tree t -> NoDup (map fst (query t q)).
+Proof. exact @query_once. Qed.
+Print Assumptions C09_query_once.
+
+(** Walk reports exactly the stored leaves, each once *)
+Theorem C09_walk_exact :
+  forall (V : Type) (t : tree V) p v,
+    wf_tree t -> (In (p, v) (walk t) <-> lookup t p = Some v).
+Proof. exact @walk_exact. Qed.
+Print Assumptions C09_walk_exact.
+
+Theorem C09_walk_once :
+  forall (V : Type) (t : tree V), wf_tree t -> NoDup (map fst (walk t)).
+Proof. exact @walk_once. Qed.
+Print Assumptions C09_walk_once.
+
+(** WalkSorted reports the same leaves in strictly increasing lexicographic
+    (bytewise) path order *)
+Theorem C09_walk_sorted :
+  forall (V : Type) (t : tree V),
+    wf_tree t ->
+    Permutation (walk_sorted t) (walk t) /\
+    StronglySorted path_lt (map fst (walk_sorted t)).
+Proof. exact @walk_sorted_exact. Qed.
+Print Assumptions C09_walk_sorted.
+
+(** lookups *)
+Theorem C09_get_leaf_exact :
+  forall (V : Type) (t : tree V) p v, get t p = Some (Leaf v) <-> lookup t p = Some v.
+Proof. exact @get_leaf_exact. Qed.
+Print Assumptions C09_get_leaf_exact.
+
+Theorem C09_is_branch_exact :
+  forall (V : Type) (t : tree V) p,
+    wf_tree t ->
+    (is_branch_at t p = true <-> exists s v, s <> [] /\ lookup t (p ++ s) = Some v).
+Proof. exact @is_branch_exact. Qed.
+Print Assumptions C09_is_branch_exact.
+
+Theorem C09_children_exact :
+  forall (V : Type) (t : tree V) p ks,
+    wf_tree t -> children_at t p = Some ks ->
+    NoDup ks /\ forall k, In k ks <-> exists s v, lookup t (p ++ k :: s) = Some v.
+Proof. exact @children_exact. Qed.
+Print Assumptions C09_children_exact.
+
+(** a delete removes and returns exactly the leaves a query for the same path
+    reports, restricted by the condition, each once; everything else stays; the
+    result is again well formed (emptied branches are pruned) *)
+Theorem C09_delete_eq_query :
+  forall (V : Type) (t : tree V) q c,
+    wf_tree t ->
+    let r := delete_cond t q c in
+    (forall s v, In (s, v) (snd r) <-> In (s, v) (query t q) /\ c v = true) /\
+    NoDup (map fst (snd r)) /\
+    (forall s, lookup (fst r) s =
+               match lookup t s with
+               | Some v => if qmatch q s && c v then None else Some v
+               | None => None
+               end) /\
+    wf_tree (fst r).
+Proof. exact @delete_eq_query. Qed.
+Print Assumptions C09_delete_eq_query.
+
+(** after a delete an add succeeds exactly when no REMAINING leaf conflicts *)
+Theorem C09_delete_prunes :
+  forall (V : Type) (t : tree V) q c p v,
+    wf_tree t ->
+    let t' := fst (delete_cond t q c) in
+    (add t' p v <> None <-> conflict_free t' p).
+Proof. exact @delete_prunes. Qed.
+Print Assumptions C09_delete_prunes.
+
+(** deleting from an empty tree removes nothing *)
 Theorem C09_delete_empty :
   forall (V : Type) (q : path) (c : V -> bool), delete_cond (None : tree V) q c = (None, []).
-Proof. reflexivity. Qed.
+Proof. exact @delete_empty. Qed.
 Print Assumptions C09_delete_empty.
+
+(** deleting through a leaf removes nothing (a single trailing glob, which
+    Query honours too, is the only continuation that selects the leaf) *)
+Theorem C09_delete_through_leaf :
+  forall (V : Type) (t : tree V) p k r c v,
+    wf_tree t -> lookup t p = Some v ->
+    (k <> "*"%string \/ r <> []) ->
+    forall w, ~ In (p, w) (snd (delete_cond t (p ++ k :: r) c)).
+Proof. exact @delete_through_leaf. Qed.
+Print Assumptions C09_delete_through_leaf.
